@@ -200,6 +200,18 @@ def run_session(case):
     obs = {"tasks": [], "callbacks": [], "errors": []}
     try:
         c = cl.HttpBeaconClient()
+        if case["seed"] % 4 == 2:
+            # the client object had an earlier life under another identity, check-in included (its traffic is not part of this
+            # session's capture): nothing of it may appear in this session
+            try:
+                random.seed(case["seed"] ^ 0x0DD)
+                c.run(cfg, dry_run=True, beacon_id=(case["beacon_id"] or 7) ^ 0x5A5A5, user="earlier", computer="OTHERHOST", process="old.exe")
+                shim.request = staticmethod(lambda method, url, **kw: httpx.Response(200, content=b"", request=hc.build_request("GET", "http://earlier.invalid/")))
+                c.get_task()
+            except Exception:  # noqa: BLE001  (an empty answer need not be decodable; only the request matters here)
+                pass
+            finally:
+                shim.request = staticmethod(fake_request)
         random.seed(case["seed"])
         try:
             c.run(cfg, dry_run=True, beacon_id=case["beacon_id"], user="user", computer="HOST", process="p.exe")
